@@ -5,7 +5,7 @@
 # Writes /verif/seeded/<PID>-<i>/{patch.diff,demo.rs,notes.md,confirm.log} and prints a one-line verdict.
 set -u
 PID="$1"; I="$2"; PATCH="${3:-patch$I.diff}"
-WT=/tmp/wt/$PID; SRC=/tmp/wtout/$PID; DST=/verif/seeded/$PID-$I
+R="${ROUND:-}"; WT=/tmp/wt$R/$PID; SRC=/tmp/wtout$R/$PID; DST=/verif/seeded/$PID-${R:+r$R-}$I
 mkdir -p "$DST"; LOG="$DST/confirm.log"; : > "$LOG"
 cd "$WT" || exit 9
 git checkout -q -- . ; git clean -fdq -e target
